@@ -435,7 +435,7 @@ func runC19(tier string) int {
 	// ASCII value xx (a table or a comparison that looks at byte(ch) takes 'Р' U+0420 for a space), in the same contexts
 	var aliasRunes []rune
 	for b := rune(0); b < 128; b++ {
-		for _, hi := range []rune{0x100, 0x400, 0x4E00, 0x10000} {
+		for _, hi := range []rune{0x100, 0x400, 0x4E00, 0x10000, 0xFF00} { // (U+FFxx: the fullwidth forms of the ASCII characters)
 			aliasRunes = append(aliasRunes, hi|b)
 		}
 	}
@@ -447,6 +447,36 @@ func runC19(tier string) int {
 	if !aliasDone {
 		r.NotExhaustive("truncation-alias inputs not completed")
 	}
+	// (f3) a number directly followed by an identifier that starts with a non-ASCII letter: no number of the language contains
+	// such a letter (digits, x and a-f A-F are ASCII), so the blank between them is dispensable - for every letter among the
+	// class and alias runes, after a decimal, a hex and a negative number
+	var letters []rune
+	for _, cr := range append(append([]rune{}, classRunes...), aliasRunes...) {
+		if cr >= 0x80 && unicode.IsLetter(cr) {
+			letters = append(letters, cr)
+		}
+	}
+	nums := []string{"5", "0x1F", "-1", "0xa"}
+	glueDone := r.Parallel(uint64(len(letters)*len(nums)), func(w int, idx uint64) {
+		id, num := string(letters[idx/uint64(len(nums))])+"b1", nums[idx%uint64(len(nums))]
+		spaced, tight := "x "+num+" "+id+" z", "x "+num+id+" z"
+		a, pa := lexAll(spaced)
+		b, pb := lexAll(tight)
+		r.Add("evaluations", 1)
+		r.Add("tight_layout_comparisons", 1)
+		if !pa && !pb && !sameSeq(a, b) {
+			r.Report(harness.Violation{Sig: "C19:layout:tight:number-before-letter", Summary: fmt.Sprintf("input %q: written without the dispensable blank (%q) the token sequence changes: %s => %s", spaced, tight, seqString(a), seqString(b)), Replay: map[string]interface{}{"input": spaced, "variant": tight},
+				Recheck: func() bool {
+					a2, _ := lexAll(spaced)
+					b2, _ := lexAll(tight)
+					return !sameSeq(a2, b2)
+				}})
+		}
+	})
+	if !glueDone {
+		r.NotExhaustive("number-before-letter inputs not completed")
+	}
+	r.Set("non_ascii_letters", len(letters))
 	// (c) compiled output unchanged under layout changes (corpus of C16)
 	for _, prog := range c16Corpus {
 		toks := c16Parse(prog.text)
@@ -548,7 +578,7 @@ func runC19(tier string) int {
 		"gaps are taken between tokens as the lexer itself reports them; a string-type prefix and the quote after it are one lexical unit; the white space and comments between the parts of a multi-part string are inside one token",
 		"inputs on which the lexer panics are counted and left to C18")
 	return r.Finish(r.Get("evaluations"), r.Get("nontrivial"),
-		"(a) every string of <= N characters over 20 characters (letters incl. multi-byte, a multi-byte non-letter, ASCII and non-ASCII digits, x, -, quote, backtick, space, tab, LF, CR, #, /, =, !, (, :); (b) every sequence of <= M lexemes from a 65-lexeme alphabet (all keywords, identifiers, numbers incl. hex/negative/leading zero, strings, typed string, raw string, every operator and delimiter, illegal characters) in 5 layouts; each input: position oracle on every token, then every gap replaced by each of 13 separators (spaces, tab, LF, CRLF, blank line, # and // comments, runs of several comment lines with indentation, comments whose text ends in a backslash) and re-lexed; (c) C16's corpus programs compiled under every single-gap layout change; (d) tokens after K lines / K one-byte / K two-byte characters for every K <= 300 (thorough 5000) and around every power of two up to 2^17 (thorough 2^21); (e) every program of the control-flow families (C01 / C03 / C04 bounds) rewritten on one line, one token group per line, with a comment and CRLF at each line end, with blank and comment lines between all lines, and with every dispensable white space removed, compiled and compared, and the same for the data families (C06 hoisting files, C08 mapscripts statements, file-level programs, reduced bounds); (f) one representative of every Unicode general category, every non-ASCII white-space rune, combining marks, astral runes and the runes of the compiler's own source, singly and in pairs, in 9 lexical contexts, plus the 512 runes U+01xx, U+04xx, U+4Exx, U+100xx whose low byte is an ASCII character; non-trivial = >= 2 tokens and a line break or multi-byte character")
+		"(a) every string of <= N characters over 20 characters (letters incl. multi-byte, a multi-byte non-letter, ASCII and non-ASCII digits, x, -, quote, backtick, space, tab, LF, CR, #, /, =, !, (, :); (b) every sequence of <= M lexemes from a 65-lexeme alphabet (all keywords, identifiers, numbers incl. hex/negative/leading zero, strings, typed string, raw string, every operator and delimiter, illegal characters) in 5 layouts; each input: position oracle on every token, then every gap replaced by each of 13 separators (spaces, tab, LF, CRLF, blank line, # and // comments, runs of several comment lines with indentation, comments whose text ends in a backslash) and re-lexed; (c) C16's corpus programs compiled under every single-gap layout change; (d) tokens after K lines / K one-byte / K two-byte characters for every K <= 300 (thorough 5000) and around every power of two up to 2^17 (thorough 2^21); (e) every program of the control-flow families (C01 / C03 / C04 bounds) rewritten on one line, one token group per line, with a comment and CRLF at each line end, with blank and comment lines between all lines, and with every dispensable white space removed, compiled and compared, and the same for the data families (C06 hoisting files, C08 mapscripts statements, file-level programs, reduced bounds); (f) one representative of every Unicode general category, every non-ASCII white-space rune, combining marks, astral runes and the runes of the compiler's own source, singly and in pairs, in 9 lexical contexts, plus the 640 runes U+01xx, U+04xx, U+4Exx, U+100xx, U+FFxx whose low byte is an ASCII character (the last plane: the fullwidth forms), plus every non-ASCII letter among all these runes directly after a decimal, hex and negative number (the blank is dispensable); non-trivial = >= 2 tokens and a line break or multi-byte character")
 }
 
 // tightLayout removes every piece of white space that is not needed to keep two word-like tokens apart
